@@ -90,6 +90,8 @@ var profiles = map[string]Profile{
 	// a session of more than 64 participants: addressed relays with repeated recipients, departures, arrivals
 	"crowd": {"custom": 10, "join": 0.3, "entityAdd": 0.5},
 	"join":   {"join": 5, "entityAdd": 1.5},
+	// ownership: entities that carry something, and everybody trying to delete, move and furnish everybody's entities
+	"owner":  {"entityAdd": 3, "assetAdd": 5, "action": 2, "entityDelete": 6, "updatePose": 3, "join": 2},
 	"module": {"action": 4, "assetAdd": 4, "entityDelete": 2, "join": 2, "quadSample": 3, "groundPlane": 3, "region": 3, "debugInfo": 2},
 	"latency": {"signedLatency": 8, "pingResp": 14, "ping": 3},
 	"malformed": {"unknown": 5, "receipt": 4},
